@@ -159,6 +159,8 @@ def run(rep, tier):
     rep.rule('R08.4', 'no lost wake-up: enqueue pushes then notifies, both under the lock; every wait in dequeue is inside a loop whose condition re-reads _queue and waits on the queue\'s own mutex')
     rep.rule('R08.5', 'macrostep boundary: dequeueExternal is reached only after the SPONTANEOUS test failed and dequeueInternal returned no event; a step that took transitions sets SPONTANEOUS, and SPONTANEOUS is cleared only by a selection that found nothing (exact _flags relation)')
     rep.rule('R08.6', 'receive path: Interpreter::receive reaches only enqueueExternal -> the external queue\'s enqueue; the internal queue is filled only through enqueueInternal')
+    rep.rule('R08.7', 'the external queue is never replaced once events may be in it: outside init()/reset() every assignment to _externalQueue is dominated by a test that the handle is still empty which is evaluated while _serializationMutex is held (double-checked lazy creation keeps its second check)')
+    rep.rule('R08.8', 'an error raised on the timer thread is in the internal queue before the session is woken: in InterpreterImpl::eventReady the enqueueInternal of the error dominates the wake-up enqueueExternal')
     rep.assume('std::recursive_mutex / condition_variable_any semantics; libstdc++ std::list')
     fb = facts.FactBase(facts.library_tus())
     g_ = cg.CallGraph(fb)
@@ -277,3 +279,54 @@ def run(rep, tier):
                 r = lock.expr_text(fb, strip(n['c'][0]['c'][0]))
                 if r in ('_externalQueue', '_internalQueue') and f.q not in ('uscxml::InterpreterImpl::enqueueExternal', 'uscxml::InterpreterImpl::enqueueInternal'):
                     rep.fail('R08.6', '%s|direct %s' % (f.q, r), locstr(n), '%s enqueues into %s directly, bypassing enqueueExternal/enqueueInternal' % (f.q, r))
+
+    # ---- R08.7
+    SER = ('this', 'uscxml::InterpreterImpl::_serializationMutex')
+    # functions that install the queue on purpose: constructors / init / clone, and setActionLanguage (configuration API: the caller
+    # hands in the queues before the session runs)
+    NOT_LAZY = ('init', 'InterpreterImpl', '~InterpreterImpl', 'cloneFrom', 'setActionLanguage')
+    n_asg = 0
+    for f in fb.funcs.values():
+        if f.rec != 'uscxml::InterpreterImpl' or f.q.split('::')[-1] in NOT_LAZY or not f.d.get('cfg'):
+            continue
+        asg = [n for n in f.walk() if n['k'] == 'CXXOperatorCallExpr' and n.get('op') == '=' and len(n.get('c', [])) > 1 and strip(n['c'][1]) is not None and
+               strip(n['c'][1])['k'] == 'MemberExpr' and strip(n['c'][1])['ref'].get('name') == '_externalQueue']
+        if not asg:
+            continue
+        g = cfgm.CFG(f)
+        for a in asg:
+            n_asg += 1
+            if a['id'] not in g.pos:
+                continue
+            tb = g.pos[a['id']][0]
+            ok = False
+            for bid, b in g.blocks.items():
+                c = b.get('cond')
+                if c is None or c not in f.nodes or bid == tb:
+                    continue
+                cn = f.nodes[c]
+                if not any(x['k'] == 'MemberExpr' and x['ref'].get('name') == '_externalQueue' for x in sub(cn)):
+                    continue
+                if not (edge_dominates(g, bid, True, tb) or edge_dominates(g, bid, False, tb)):
+                    continue
+                if SER in la.held(f, cn):
+                    ok = True
+            rep.check(ok, 'R08.7', '%s|_externalQueue assigned' % f.q.split('uscxml::')[-1], locstr(a), 'the assignment of a new queue is %s' % (
+                'dominated by an emptiness test made under _serializationMutex' if ok else 'NOT guarded by an emptiness test made under _serializationMutex: two early producers replace each other\'s queue and the events in it are lost'))
+    rep.minimum('R08.7', n_asg, 1, 'assignments to _externalQueue outside init()')
+
+    # ---- R08.8
+    er = fb.fn('uscxml::InterpreterImpl::eventReady')
+    ger = path.EHCFG(er) if hasattr(path, 'EHCFG') else cfgm.CFG(er)
+    hs = [n for n in er.walk() if n['k'] == 'CXXCatchStmt']
+    found = 0
+    for h in hs:
+        ints = [n for n in sub(h) if n.get('callee', {}).get('q', '').endswith('::enqueueInternal')]
+        exts = [n for n in sub(h) if n.get('callee', {}).get('q', '').endswith('::enqueueExternal')]
+        if not ints or not exts:
+            continue
+        found += 1
+        g0 = cfgm.CFG(er)
+        ok = all(any(g0.dominates(i['id'], x['id']) for i in ints) for x in exts)
+        rep.check(ok, 'R08.8', 'eventReady|error before wake-up', locstr(exts[0]), 'in the handler the error is %s the wake-up' % ('enqueued internally before' if ok else 'enqueued AFTER: the woken step finds the internal queue empty, blocks again and the error waits for the next unrelated external event'))
+    rep.minimum('R08.8', found, 1, 'handlers of eventReady that enqueue the error and wake the session')
